@@ -234,6 +234,9 @@ type FnSpec struct {
 	PnIndex      int
 	NoPureIf     bool // keep the plain `if` emission for this function
 	UseStructs   []string // opt-in struct types (Go names) this function works on
+	// Inner: the function only returns a closure (possibly wrapped in a conversion such as http.HandlerFunc(...));
+	// what is translated is the closure, with the parameters of the outer function in front of its own
+	Inner bool
 	// Prologue: Lean do-statements at the start of the body; RetExtra/RetExtraT: extra values (Lean terms and
 	// types) returned in front of the Go results (e.g. the threaded abstract state of modelled callees)
 	Prologue  []string
@@ -680,6 +683,9 @@ func (t *tr) call(c *ast.CallExpr, stmt bool) ([]string, []T) {
 	if id, ok := c.Fun.(*ast.Ident); ok {
 		switch id.Name {
 		case "len":
+			if ext := t.findExt("len(" + calleeText(t.p, c.Args[0], t.recvName) + ")"); ext != nil {
+				return []string{ext.Value}, []T{tInt}
+			}
 			a, at := t.expr(c.Args[0])
 			if at.Kind != "str" && at.Kind != "strlist" && !strings.HasPrefix(at.Lean, "List ") {
 				t.fail(c, "len of %s", at.Kind)
@@ -1228,8 +1234,13 @@ func (t *tr) assignTo(lhs ast.Expr, val string) {
 		}
 		return
 	case *ast.SelectorExpr:
-		if ext, h := t.wildExt(l, "="); ext != nil && ext.Effect != "" {
-			t.emit("%s := %s", t.recvLean(), subst(ext.Effect, t.recvLean(), []string{h, val}))
+		if ext, h := t.wildExt(l, "="); ext != nil && (ext.Effect != "" || len(ext.Stmts) > 0) {
+			for _, st := range ext.Stmts {
+				t.emit("%s", subst(st, t.recvLean(), []string{h, val}))
+			}
+			if ext.Effect != "" {
+				t.emit("%s := %s", t.recvLean(), subst(ext.Effect, t.recvLean(), []string{h, val}))
+			}
 			return
 		}
 		base, set, ok := t.lvalStruct(l.X)
@@ -2166,6 +2177,15 @@ func (g *gen) translate(fi *fnInfo) {
 		g.report = append(g.report, map[string]any{"func": name, "problem": "not found"})
 		return
 	}
+	outer := fd
+	if spec.Inner {
+		fd = innerClosure(fd)
+		if fd == nil {
+			fmt.Fprintf(&g.out, "/-- `%s`: does not just return a closure any more -/\ndef %s : GoRt.Untranslatable := ⟨\"not a closure constructor\"⟩\n\n", name, spec.Lean)
+			g.report = append(g.report, map[string]any{"func": name, "problem": "not a closure constructor"})
+			return
+		}
+	}
 	t := &tr{g: g, p: p, spec: spec, fd: fd, declared: map[string]int{}, ltypes: map[string]string{}, alias: map[string]string{}}
 	ast.Inspect(fd.Body, func(n ast.Node) bool {
 		if _, ok := n.(*ast.ForStmt); ok {
@@ -2179,7 +2199,7 @@ func (g *gen) translate(fi *fnInfo) {
 	t.mayPanic = mayPanicBody(p, g, spec, fd, t.recvName) || t.hasLoop
 	t.mutates = !spec.NoRecv && (spec.Mutates || mutatesBody(p, g, spec, fd, t.recvName))
 	fi.mayPanic, fi.mutates, fi.hasLoop = t.mayPanic, t.mutates, t.hasLoop
-	src := p.text(fd)
+	src := p.text(outer)
 	var header string
 	func() {
 		defer func() {
@@ -2394,6 +2414,33 @@ func (g *gen) translate(fi *fnInfo) {
 		fmt.Fprintf(&g.out, "/--\n```go\n%s\n```\n-/\n%s\n%s\n\n", escDoc(src), header, strings.Join(t.lines, "\n"))
 		g.report = append(g.report, map[string]any{"func": name, "lean": "Rux.Gen." + spec.Lean, "mayPanic": t.mayPanic, "mutatesReceiver": t.mutates, "lines": len(t.lines)})
 	}()
+}
+
+// innerClosure: `func F(a..) T { return [conv(]func(b..) R { body }[)] }` as the function `F(a.., b..) R { body }`
+func innerClosure(fd *ast.FuncDecl) *ast.FuncDecl {
+	if fd.Body == nil || len(fd.Body.List) != 1 {
+		return nil
+	}
+	rs, ok := fd.Body.List[0].(*ast.ReturnStmt)
+	if !ok || len(rs.Results) != 1 {
+		return nil
+	}
+	e := rs.Results[0]
+	if c, ok := e.(*ast.CallExpr); ok && len(c.Args) == 1 {
+		e = c.Args[0]
+	}
+	fl, ok := e.(*ast.FuncLit)
+	if !ok {
+		return nil
+	}
+	params := &ast.FieldList{}
+	if fd.Type.Params != nil {
+		params.List = append(params.List, fd.Type.Params.List...)
+	}
+	if fl.Type.Params != nil {
+		params.List = append(params.List, fl.Type.Params.List...)
+	}
+	return &ast.FuncDecl{Name: fd.Name, Type: &ast.FuncType{Params: params, Results: fl.Type.Results}, Body: fl.Body}
 }
 
 // matchDeferRecover: `[if cond {] defer func() { if ret := recover(); ret != nil { body } }() [}]` as first statement
